@@ -17,6 +17,7 @@ import (
 	"github.com/256dpi/lungo/bsonkit"
 	"github.com/256dpi/lungo/verifsim/simos"
 	"github.com/256dpi/lungo/verifsim/simrt"
+	"go.mongodb.org/mongo-driver/bson/primitive"
 )
 
 const dataDir = "/data"
@@ -28,6 +29,7 @@ type CommitRec struct {
 	Task  *simrt.Task
 	At    time.Duration // simulated time since run start
 	Wall  time.Time     // simulated wall clock (with offset)
+	WallIn time.Time    // simulated wall clock when Store was entered
 	Step  int
 	Cat   *lungo.Catalog
 	Prev  *lungo.Catalog // engine catalog at the time of the call
@@ -64,6 +66,10 @@ type Env struct {
 	onStep   []func() bool
 
 	opSeq int // global invoke/return sequence
+
+	baseCat *lungo.Catalog // catalog loaded when the current engine was opened
+	maxTS   primitive.Timestamp
+	tsEpoch int
 
 	sharedSess []lungo.ISession
 	closing    bool // Engine.Close has been invoked by the plan
@@ -153,6 +159,7 @@ func (s *SimStore) Store(c *lungo.Catalog) error {
 	simrt.Yield("store:store")
 	n := e.storeCalls
 	e.storeCalls++
+	wallIn := time.Now().Add(e.sim.WallOffset())
 	f, has := e.storeFaults[n]
 	if has && f.Kind == "store-latency" {
 		e.fault("store-latency")
@@ -174,9 +181,11 @@ func (s *SimStore) Store(c *lungo.Catalog) error {
 		e.logf("store call %d: injected failure after persisting", n)
 		return ErrInjected
 	}
-	rec := &CommitRec{Seq: len(e.commits), Task: e.sim.Current(), At: e.sim.Elapsed(), Wall: time.Now().Add(e.sim.WallOffset()), Step: e.sim.Steps(), Cat: c, Epoch: e.epoch}
-	if len(e.commits) > 0 {
+	rec := &CommitRec{Seq: len(e.commits), Task: e.sim.Current(), At: e.sim.Elapsed(), Wall: time.Now().Add(e.sim.WallOffset()), WallIn: wallIn, Step: e.sim.Steps(), Cat: c, Epoch: e.epoch}
+	if len(e.commits) > 0 && e.commits[len(e.commits)-1].Epoch == e.epoch {
 		rec.Prev = e.commits[len(e.commits)-1].Cat
+	} else {
+		rec.Prev = e.baseCat
 	}
 	e.commits = append(e.commits, rec)
 	for _, fn := range e.onCommit {
@@ -283,6 +292,7 @@ func (e *Env) open() error {
 	e.engine, e.client = engine, client
 	e.engines = append(e.engines, engine)
 	e.epoch++
+	e.baseCat = engine.Catalog()
 	return nil
 }
 
@@ -393,6 +403,7 @@ func runPlan(t *testing.T, plan *Plan, body func(e *Env)) (out *Outcome) {
 			TimePassPct: plan.Cfg.TimePassPct,
 			Schedule:    plan.Schedule,
 			StallAfter:  time.Duration(plan.Cfg.StallS) * time.Second,
+			MaxSimTime:  1000 * 24 * time.Hour,
 		}
 		if cfg.MaxSteps == 0 {
 			cfg.MaxSteps = 400000
